@@ -137,6 +137,7 @@ type World struct {
 	randFixed bool
 	schedFull bool
 	yieldUnderLock bool
+	usesRand bool
 }
 
 func (w *World) newObj(v Val, t types.Type) *Obj { w.nobj++; return &Obj{v: v, id: w.nobj, typ: t} }
